@@ -292,14 +292,12 @@ theorem c03_memo_placement_irrelevant (cfg1 cfg2 : Cfg) (bo1 bo2 : Nat → G)
 
 /-! ### the facts of the source the model relies on (regenerated on every run) -/
 
-theorem c03_facts :
-    Facts.memoizeCallOrder = "ResultCache().Get;data.NewIntSet;p.Parse;leftRecCtx.Inc;leftRecCtx.Filter;ResultCache().Save" ∧
-    Facts.memoizeSavedCtx = "leftRecCtx.Filter(cp)" ∧
-    Facts.cacheGetRange = "result.LeftRecCtx.Keys()" ∧
-    Facts.cacheGetReject = "result.LeftRecCtx.Get(key)>leftRecCtx.Get(key)" ∧
-    Facts.curtailCond = "leftRecCtx.Get(parserIndex)>ctx.Reader().Remaining(pos)+1" ∧
-    Facts.setErrorConds = "err==nil;c.err==nil||err.Pos()>=c.err.Pos()" :=
-  ⟨rfl, rfl, rfl, rfl, rfl, rfl⟩
+/- (the text facts that stood here - condition lists and statement orders of Memoize, ResultCache, Any, Choice, the Sequence
+   machinery, ReturnError, SetError, Parse, re-read from the source as normalised text - are subsumed since translator v3: the
+   functions themselves are translated from the source on every run and the model is PROVED to agree with the translation
+   (Props/C01P.lean, built and audited by this property's check).  Unlike a text comparison, that tie is not broken by an
+   equivalent rewrite of the source.) -/
+theorem c03_facts : Facts.curtailSlack = 1 := rfl
 
 /-! ### non-vacuity -/
 
